@@ -1,0 +1,65 @@
+//go:build verif
+// +build verif
+
+package config
+
+// Contracts for the deductive verifier in /verif (govc). Comment-only file.
+
+//@ func (*Config).emitSvcAddEvent
+//@   prop C08
+//@   requires c != nil && c.evtCh != nil && sw != nil && sw.Service != nil
+//@   modifies sent(c.evtCh)
+//@   ensures @one-add-event-with-the-current-state sentcount(c.evtCh) == old(sentcount(c.evtCh)) + 1 && typeis(sentat(c.evtCh, old(sentcount(c.evtCh))), "*SvcAddEvent") && ifaceptr(sentat(c.evtCh, old(sentcount(c.evtCh))), "*SvcAddEvent").Name == sw.Service.Name && ifaceptr(sentat(c.evtCh, old(sentcount(c.evtCh))), "*SvcAddEvent").Config == sw.Config && sameslice(ifaceptr(sentat(c.evtCh, old(sentcount(c.evtCh))), "*SvcAddEvent").Endpoints, sw.Endpoints)
+
+//@ func (*Config).emitSvcRemoveEvent
+//@   prop C08
+//@   requires c != nil && c.evtCh != nil && sw != nil && sw.Service != nil
+//@   modifies sent(c.evtCh)
+//@   ensures @one-remove-event sentcount(c.evtCh) == old(sentcount(c.evtCh)) + 1 && typeis(sentat(c.evtCh, old(sentcount(c.evtCh))), "*SvcRemoveEvent") && ifaceptr(sentat(c.evtCh, old(sentcount(c.evtCh))), "*SvcRemoveEvent").Name == sw.Service.Name
+
+//@ func (*Config).emitSvcConfigEvent
+//@   prop C08
+//@   requires c != nil && c.evtCh != nil
+//@   modifies sent(c.evtCh)
+//@   ensures @one-config-event sentcount(c.evtCh) == old(sentcount(c.evtCh)) + 1 && typeis(sentat(c.evtCh, old(sentcount(c.evtCh))), "*SvcConfigEvent") && ifaceptr(sentat(c.evtCh, old(sentcount(c.evtCh))), "*SvcConfigEvent").Name == svcName && ifaceptr(sentat(c.evtCh, old(sentcount(c.evtCh))), "*SvcConfigEvent").Config == newCfg
+
+//@ func (*Config).emitSvcEndpointEvent
+//@   prop C08
+//@   requires c != nil && c.evtCh != nil
+//@   modifies sent(c.evtCh)
+//@   ensures @no-event-for-an-empty-delta len(added) == 0 && len(removed) == 0 ==> sentcount(c.evtCh) == old(sentcount(c.evtCh))
+//@   ensures @one-endpoint-event-otherwise len(added) != 0 || len(removed) != 0 ==> sentcount(c.evtCh) == old(sentcount(c.evtCh)) + 1 && typeis(sentat(c.evtCh, old(sentcount(c.evtCh))), "*SvcEndpointEvent") && ifaceptr(sentat(c.evtCh, old(sentcount(c.evtCh))), "*SvcEndpointEvent").Name == svcName && sameslice(ifaceptr(sentat(c.evtCh, old(sentcount(c.evtCh))), "*SvcEndpointEvent").Added, added) && sameslice(ifaceptr(sentat(c.evtCh, old(sentcount(c.evtCh))), "*SvcEndpointEvent").Removed, removed)
+
+//@ func isContainEndpoint
+//@   prop C08
+//@   requires endpoint != nil && forall k int :: 0 <= k && k < len(endpoints) ==> endpoints[k] != nil
+//@   modifies nothing
+//@   ensures @index-in-range result1 ==> 0 <= result0 && result0 < len(endpoints)
+
+//@ func (*Config).handleSvcConfigUpdate
+//@   prop C08
+//@   requires swsok(c)
+//@   modifies c.sws[svcName].Config, sent(c.evtCh)
+//@   ensures @unknown-service-ignored !has(c.sws, svcName) ==> sentcount(c.evtCh) == old(sentcount(c.evtCh))
+//@   ensures @stored has(c.sws, svcName) ==> c.sws[svcName].Config == newCfg
+//@   ensures @silent-until-the-endpoints-are-known has(c.sws, svcName) && isnil(c.sws[svcName].Endpoints) ==> sentcount(c.evtCh) == old(sentcount(c.evtCh))
+//@   ensures @announced-when-first-complete has(c.sws, svcName) && !isnil(c.sws[svcName].Endpoints) && old(c.sws[svcName].Config == nil) ==> sentcount(c.evtCh) == old(sentcount(c.evtCh)) + 1 && typeis(sentat(c.evtCh, old(sentcount(c.evtCh))), "*SvcAddEvent")
+//@   ensures @config-event-once-announced has(c.sws, svcName) && !isnil(c.sws[svcName].Endpoints) && old(c.sws[svcName].Config != nil) ==> sentcount(c.evtCh) == old(sentcount(c.evtCh)) + 1 && typeis(sentat(c.evtCh, old(sentcount(c.evtCh))), "*SvcConfigEvent") && ifaceptr(sentat(c.evtCh, old(sentcount(c.evtCh))), "*SvcConfigEvent").Config == newCfg
+
+//@ func (*Config).handleSvcEndpointUpdate
+//@   prop C08
+//@   requires swsok(c)
+//@   requires @lists-present (forall k int :: 0 <= k && k < len(added) ==> added[k] != nil) && (forall k int :: 0 <= k && k < len(removed) ==> removed[k] != nil) && (has(c.sws, svcName) ==> forall k int :: 0 <= k && k < len(c.sws[svcName].Endpoints) ==> c.sws[svcName].Endpoints[k] != nil)
+//@   requires @update-lists-are-not-views-of-the-stored-list has(c.sws, svcName) ==> disjoint(added, c.sws[svcName].Endpoints) && disjoint(removed, c.sws[svcName].Endpoints)
+//@   let eps0 = c.sws[svcName].Endpoints
+//@   modifies all, sent(c.evtCh)
+//@   ensures @unknown-service-ignored !old(has(c.sws, svcName)) ==> sentcount(c.evtCh) == old(sentcount(c.evtCh))
+//@   ensures @at-most-one-event sentcount(c.evtCh) <= old(sentcount(c.evtCh)) + 1
+//@   ensures @an-announced-service-is-not-announced-again old(has(c.sws, svcName) && complete(c.sws[svcName])) ==> !(sentcount(c.evtCh) == old(sentcount(c.evtCh)) + 1 && typeis(sentat(c.evtCh, old(sentcount(c.evtCh))), "*SvcAddEvent"))
+//@   ensures @an-announcement-leaves-the-service-complete sentcount(c.evtCh) == old(sentcount(c.evtCh)) + 1 && typeis(sentat(c.evtCh, old(sentcount(c.evtCh))), "*SvcAddEvent") ==> complete(old(c.sws[svcName]))
+//@   loop 0 invariant sw != nil && forall k int :: 0 <= k && k < len(sw.Endpoints) ==> sw.Endpoints[k] != nil
+//@   loop 0 invariant base(sw.Endpoints) == base(eps0) && off(sw.Endpoints) == off(eps0) && cap(sw.Endpoints) == cap(eps0) && (cap(validRemoved) == 0 || fresh(validRemoved))
+//@   loop 0 invariant (forall k int :: 0 <= k && k < len(added) ==> added[k] != nil) && (forall k int :: 0 <= k && k < len(removed) ==> removed[k] != nil)
+//@   loop 1 invariant sw != nil && forall k int :: 0 <= k && k < len(sw.Endpoints) ==> sw.Endpoints[k] != nil
+//@   loop 1 invariant ((base(sw.Endpoints) == base(eps0) && off(sw.Endpoints) == off(eps0) && cap(sw.Endpoints) == cap(eps0)) || fresh(sw.Endpoints)) && (cap(validAdded) == 0 || fresh(validAdded))
+//@   loop 1 invariant forall k int :: 0 <= k && k < len(added) ==> added[k] != nil
